@@ -61,7 +61,9 @@ CASE_GLOBS = ['*.case', '?.case', '??.case', 'a*.case', 'b*.case', '*/*.case', '
               '**/a.case', 'cs/**/*.case', '*1.case', '**/?.case']
 SUITE_GLOBS = ['s*.suite', 's?.suite', '*/s*.suite', 'd?', 'd*', '*/exactly.suite', '**/s*.suite', 'd?/s*.suite']
 SYNTAX_DEFECTS = ['unknown_section', 'unknown_instruction', 'superfluous_case_arg', 'superfluous_suite_arg',
-                  'text_after_section_header']
+                  'text_after_section_header',
+                  # an EXISTING listed file, quoted, followed by a superfluous argument / with the quote left open
+                  'superfluous_after_hard_quoted', 'superfluous_after_soft_quoted', 'unterminated_quote']
 
 
 # =================================================================================================
@@ -88,6 +90,11 @@ KNOWN = {'junit-act-phase-syntax-error-reported-as-pass': _known_junit_act_synta
 # =================================================================================================
 # Tree builder (used by the generator; produces a JSON-able descriptor)
 # =================================================================================================
+_IN_LINE_DEFECTS = {'superfluous_after_hard_quoted': "'%s' superfluous-argument",
+                    'superfluous_after_soft_quoted': '"%s" superfluous.case',
+                    'unterminated_quote': "'%s"}
+
+
 def suite_text(items, omit=False, decor=0, defect=None, defect_at_start=False):
     """Renders a suite file.  items: [[section, line], ...] in file order; a header is written whenever the
     section changes (so sections may appear several times); with omit=True the leading [cases] header is left out
@@ -98,12 +105,21 @@ def suite_text(items, omit=False, decor=0, defect=None, defect_at_start=False):
     cur = 'cases' if omit else None
     if decor & 1:
         lines += ['# a comment line', '']
-    for sec, line in items:
+    in_line = None
+    if defect in _IN_LINE_DEFECTS:
+        plain = [i for i, (sec, line) in enumerate(items) if not any(c in line for c in '*?[]\'" ')]
+        if plain:
+            in_line = plain[0] if defect_at_start else plain[-1]
+        else:
+            defect = 'superfluous_case_arg'
+    for i, (sec, line) in enumerate(items):
         if sec != cur:
             if decor & 2:
                 lines.append('')
             lines.append('[%s]' % sec)
             cur = sec
+        if i == in_line:
+            line = _IN_LINE_DEFECTS[defect] % line
         lines.append(line)
         if decor & 4:
             lines += ['', '#' + line]
@@ -114,7 +130,7 @@ def suite_text(items, omit=False, decor=0, defect=None, defect_at_start=False):
         'superfluous_case_arg': ['[cases]', 'one.case two.case'],
         'superfluous_suite_arg': ['[suites]', 'one.suite two.suite'],
         'text_after_section_header': ['[cases] trailing-text'],
-    }[defect]
+    }.get(defect, [])
     lines = (block + lines) if defect_at_start else (lines + block)
     return '\n'.join(lines) + ('\n' if lines else '')
 
